@@ -37,6 +37,14 @@ impl Rx {
             _ => false,
         }
     }
+    pub fn has_not(&self) -> bool {
+        match self {
+            Rx::Not(_) | Rx::RawNot(_) => true,
+            Rx::Rep(x, _, _) | Rx::CaseI(x) => x.has_not(),
+            Rx::Cat(v) | Rx::Alt(v) | Rx::And(v) => v.iter().any(|x| x.has_not()),
+            _ => false,
+        }
+    }
     pub fn has_raw_not(&self) -> bool {
         match self {
             Rx::RawNot(_) => true,
